@@ -2,8 +2,10 @@ package props
 
 import (
 	"fmt"
+	"os"
 	"go/constant"
 	"go/token"
+	"go/types"
 	"strings"
 	"unicode"
 	"unicode/utf8"
@@ -34,6 +36,7 @@ func runC13(p *core.Prog, r *core.Report) {
 	r.Rule("C13-R2", "sanitizer: every non-constant datum reaches the line through the quoting function, a formatter whose alphabet has no whitespace, '=' or '\"', or the handler's own pre-rendered bytes; colour-only sinks are out of scope", 12)
 	r.Rule("C13-R3", "the quoting predicate is sufficient: evaluated over all 128 ASCII bytes and every Unicode scalar value, a character that is left bare is never whitespace, '=', '\"', a control character or invalid UTF-8; the empty string is quoted", 3)
 	r.Rule("C13-R4", "source location: a function that captures the caller with runtime.Callers(2+d, …) is reached through exactly d frames of the package — d-1 private levels nobody outside can enter, then entry points that are not themselves called from inside the logger package (fixed stack depth)", 1)
+	r.Rule("C13-R5", "group path kept: an attribute emitter that receives the dotted group path in a scratch buffer quotes the key without that path only on paths where the path is empty", 0)
 	r.NotDecided = append(r.NotDecided, "equality of unquoted tokens with the inputs (delegated to strconv.AppendQuote/Unquote)", "content of dotted group paths beyond: joined with '.' in the scratch buffer and quoted as one string")
 	r.Trusted = append(r.Trusted, "strconv.AppendQuote output is one \"…\" token without raw whitespace/control bytes and round-trips through Unquote", "unicode.IsSpace / IsPrint tables of the Go release in use", "strconv.AppendInt/Uint/Bool/Float, Time.AppendFormat(RFC3339), Duration.String alphabets")
 
@@ -51,6 +54,75 @@ func runC13(p *core.Prog, r *core.Report) {
 	}
 	r.Anchor("sanitizer", fnName(san))
 	sinks, _ := classifySinks(p, h, san)
+
+	// ---- R5: the dotted group path is part of every leaf key. Where an emitter receives the path in a scratch buffer
+	// (a *[]byte that is not the line), the key is quoted *without* the path only on paths where the path is empty
+	for fn := range bufs {
+		if fn.Blocks == nil || rootFn(fn) != fn {
+			continue
+		}
+		var scratch []*ssa.Parameter
+		var attr *ssa.Parameter
+		for _, prm := range fn.Params {
+			if pt, ok := prm.Type().Underlying().(*types.Pointer); ok {
+				if sl, ok := pt.Elem().Underlying().(*types.Slice); ok && sl.Elem().String() == "byte" && !bufs[fn][prm] {
+					scratch = append(scratch, prm)
+				}
+			}
+			if strings.HasSuffix(prm.Type().String(), "log/slog.Attr") {
+				attr = prm
+			}
+		}
+		if os.Getenv("GLB_C13_DEBUG") != "" {
+			fmt.Fprintf(os.Stderr, "C13-R5 %s scratch=%d attr=%v\n", fn, len(scratch), attr != nil)
+		}
+		if len(scratch) != 1 || attr == nil {
+			continue
+		}
+		pathEmpty := map[sx.Edge]bool{}
+		sx.Instrs(fn, func(in ssa.Instruction) {
+			b, ok := in.(*ssa.BinOp)
+			if !ok || b.Referrers() == nil {
+				return
+			}
+			k, isC := sx.ConstInt(b.Y)
+			lc, isL := b.X.(*ssa.Call)
+			if !isC || k != 0 || !isL || !isBuiltin(lc, "len") || !sx.Origins(lc.Call.Args[0])["param:"+scratch[0].Name()] {
+				return
+			}
+			idx := -1
+			switch b.Op {
+			case token.GTR, token.NEQ:
+				idx = 1
+			case token.EQL, token.LEQ:
+				idx = 0
+			}
+			if idx < 0 {
+				return
+			}
+			for _, u := range *b.Referrers() {
+				if iff, ok := u.(*ssa.If); ok {
+					pathEmpty[sx.Edge{From: iff.Block(), Idx: idx}] = true
+				}
+			}
+		})
+		sx.Instrs(fn, func(in ssa.Instruction) {
+			c, ok := in.(*ssa.Call)
+			if !ok || sx.StaticCallee(c) != san || len(c.Call.Args) < 2 {
+				return
+			}
+			org := sx.Origins(c.Call.Args[len(c.Call.Args)-1])
+			if os.Getenv("GLB_C13_DEBUG") != "" {
+				fmt.Fprintf(os.Stderr, "C13-R5 san call org=%v path=%s\n", org, sx.ValPath(c.Call.Args[len(c.Call.Args)-1]))
+			}
+			// only the key, alone (the value side of the attribute goes through the value emitter, not through this call)
+			if len(org) != 1 || !org["field:Attr.Key"] {
+				return
+			}
+			ok2 := len(pathEmpty) > 0 && sx.MustPass(fn, nil, c, sx.Cut{Edges: pathEmpty})
+			r.Check(ok2, "C13-R5", "bare key in "+fnName(fn)+" only where the group path is empty", p.Pos(c.Pos()), "behind the empty-path edge of `len(*"+scratch[0].Name()+") > 0`", "the attribute's key is written without the group path on a path where the path may be non-empty (the path test is combined with another condition?): the record loses the dotted path of that attribute")
+		})
+	}
 
 	// ---- R2
 	n := map[string]int{}
